@@ -48,6 +48,12 @@ def guarded(fn, *args, **kwargs):
                 where = f"{os.path.basename(fr.filename)}:{fr.lineno} {fr.name}"
                 break
         msg = str(e).replace("\n", " ")[:200]
+        if not where and isinstance(e, (NameError, UnboundLocalError, AttributeError, KeyError, IndexError)) and not any(
+            "cotengra" in fr.filename for fr in tb
+        ):
+            # a programming error in the harness's own code (no frame of the
+            # library on the stack): harness trouble, never a violation
+            raise HarnessError(f"harness code raised {type(e).__name__}: {msg}") from e
         return False, f"{type(e).__name__}: {msg} @ {where}"
 
 
